@@ -97,6 +97,7 @@ pub struct Exec {
     st: Mutex<St>,
     cv: Condvar,
     pub fine_grained: bool,
+    pub flag_points: bool,
     pub pool_threads: usize,
     probe: RwLock<Option<Arc<dyn Fn() -> bool + Send + Sync>>>,
 }
@@ -125,6 +126,8 @@ fn my_tid(exec: &Exec) -> Option<Tid> {
 /// only when the pool has a single thread (with helpers running concurrently the state would
 /// not be frozen while others are scheduled).
 const FINE_POINTS: [&str; 2] = ["run:scan_poll", "run:rescore_item"];
+/// Points that only matter for the ordering of the notification flag against the worker's read.
+const FLAG_POINTS: [&str; 5] = ["tick:enter", "tick:flag_cleared", "tick:try_lock_failed", "tick:rearmed", "tick:retry_lock"];
 
 fn wait_of(id: &'static str) -> Wait {
     match id {
@@ -165,8 +168,8 @@ pub struct Trace {
 }
 
 impl Exec {
-    pub fn new(prefix: Vec<usize>, pool_threads: usize, slots: usize) -> Arc<Exec> {
-        let fine_grained = pool_threads == 1;
+    pub fn new(prefix: Vec<usize>, pool_threads: usize, slots: usize, fine: bool, flag_points: bool) -> Arc<Exec> {
+        let fine_grained = pool_threads == 1 && fine;
         let epoch = EPOCH.fetch_add(1, Ordering::SeqCst);
         let exec = Arc::new(Exec {
             epoch,
@@ -191,6 +194,7 @@ impl Exec {
             }),
             cv: Condvar::new(),
             fine_grained,
+            flag_points,
             pool_threads,
             probe: RwLock::new(None),
         });
@@ -337,6 +341,9 @@ impl Exec {
             return; // helper pool thread or a thread of an abandoned execution
         };
         if FINE_POINTS.contains(&id) && !self.fine_grained {
+            return;
+        }
+        if FLAG_POINTS.contains(&id) && !self.flag_points {
             return;
         }
         if id == "tick:before_spawn" {
@@ -577,24 +584,37 @@ impl Exec {
 pub fn explore(
     bound: u32,
     max_executions: u64,
+    shard: usize,
+    nshards: usize,
     mut run: impl FnMut(&[usize]) -> Trace,
     mut visit: impl FnMut(&[usize], &Trace) -> bool,
 ) -> (u64, u64, bool) {
+    // The subtrees below the root execution are dealt round-robin to the shards; every shard
+    // re-runs the root (deterministic) to learn them, shard 0 also judges and counts it.
     let mut stack: Vec<Vec<usize>> = vec![Vec::new()];
     let mut executions = 0u64;
     let mut points = 0u64;
+    let mut root = true;
     while let Some(prefix) = stack.pop() {
         if executions >= max_executions {
             return (executions, points, true);
         }
         let trace = run(&prefix);
-        executions += 1;
-        points += trace.decisions.len() as u64;
         let choices: Vec<usize> = trace.decisions.iter().map(|d| d.chosen).collect();
-        let go_on = visit(&choices, &trace);
+        let counted = !root || shard == 0;
+        let mut go_on = true;
+        if counted {
+            executions += 1;
+            points += trace.decisions.len() as u64;
+            go_on = visit(&choices, &trace);
+        } else if !matches!(trace.outcome, Outcome::Completed) {
+            go_on = false;
+        }
         if !go_on {
+            root = false;
             continue;
         }
+        let mut k = 0usize;
         for i in (prefix.len()..trace.decisions.len()).rev() {
             let d = &trace.decisions[i];
             for alt in (1..d.n).rev() {
@@ -602,11 +622,16 @@ pub fn explore(
                 if cost > bound {
                     continue;
                 }
+                k += 1;
+                if root && k % nshards != shard {
+                    continue;
+                }
                 let mut p = choices[..i].to_vec();
                 p.push(alt);
                 stack.push(p);
             }
         }
+        root = false;
     }
     (executions, points, false)
 }
